@@ -1,4 +1,6 @@
 // Set an environment variable for the test dir.
 fn main() {
     println!("cargo:rustc-env=SUIRON_TEST_DIR=./tests");
+    // Declares the verification guard so that ordinary builds do not warn about it.
+    println!("cargo:rustc-check-cfg=cfg(suiron_verif)");
 }
